@@ -706,7 +706,7 @@ func main() {
 		ctx.Finish("replay", nil)
 	}
 	r := hx.NewRand(ctx.Seed)
-	nodeLevel(ctx, r.Fork(99), ctx.Scale(60, 1500))
+	nodeLevel(ctx, r.Fork(99), ctx.Scale(60, 250)) // each ChainGen chain leaks one in-memory leveldb (genesis builder): keep the count bounded
 	n := ctx.Scale(8000, 200000)
 	batch := 1000
 	for done := 0; done < n; done += batch {
